@@ -42,7 +42,7 @@ def guardSel : Option NilTag → GuardSel
   | some .eq => ⟨.jumpIfNotNil, .jumpIfNil, "notNil"⟩
   | some .neq => ⟨.jumpIfNil, .jumpIfNotNil, "isNil"⟩
 
-/-- the admitted lists of stripped heads: none or exactly one (`(= nil (not= nil y))` is a comparison of a boolean with nil, not a nil
+/-- the allowed lists of stripped heads: none or exactly one (`(= nil (not= nil y))` is a comparison of a boolean with nil, not a nil
     test of `y`: only the outer head may be stripped) -/
 def pathTag : List String → Option (Option NilTag)
   | [] => some none
